@@ -345,6 +345,58 @@ func TestVerifC11(t *testing.T) {
 			jobs = append(jobs, mc.ExploreJob(mc.Options{Job: "oldgen/" + ks.kind, MaxDev: -1}, run))
 		}
 
+		// (a2) a filter keeps its name but changes its kind: the new generation must come up as if it were fresh
+		kindChange := func(c *mc.Ctx) {
+			a := c.Choose(len(vKindSpecs), "old-kind")
+			b := c.Choose(len(vKindSpecs), "new-kind")
+			if a == b {
+				c.Outcome("same-kind")
+				return
+			}
+			ka, kb := vKindSpecs[a], vKindSpecs[b]
+			mk := func(filterYAML string) string {
+				return "name: p\nkind: Pipeline\nfilters:\n- " + strings.Replace(strings.TrimSpace(filterYAML), "\n", "\n  ", -1) + "\n"
+			}
+			g1 := c11Entity(mk(ka.base))
+			g1.InitWithRecovery(nil)
+			p1 := g1.Instance().(*pipeline.Pipeline)
+			if c.Choose(2, "request-before-update") == 1 {
+				ctx, _ := c11Ctx()
+				p1.Handle(ctx)
+			}
+			g2 := c11Entity(mk(kb.base))
+			func() {
+				defer func() {
+					if r := recover(); r != nil {
+						c.Failf("inherit-panics:filter-kind-change:to-"+kb.kind, "filter f changes kind %s -> %s: Pipeline.Inherit panicked: %v", ka.kind, kb.kind, r)
+					}
+				}()
+				g2.Instance().(*pipeline.Pipeline).Inherit(g2.Spec(), p1, nil)
+			}()
+			p2 := g2.Instance().(*pipeline.Pipeline)
+			fresh := c11Entity(mk(kb.base))
+			fresh.InitWithRecovery(nil)
+			handle := func(p *pipeline.Pipeline) (res string, status int, panicked interface{}) {
+				ctx, _ := c11Ctx()
+				defer func() { panicked = recover() }()
+				res = p.Handle(ctx)
+				if r := ctx.GetOutputResponse(); r != nil {
+					status = r.(*httpprot.Response).StatusCode()
+				}
+				return
+			}
+			r2, s2, pn := handle(p2)
+			rf, sf, _ := handle(fresh.Instance().(*pipeline.Pipeline))
+			if pn != nil {
+				c.Failf("new-generation-panics:filter-kind-change:to-"+kb.kind, "filter f changes kind %s -> %s: a request on the new generation panicked: %v", ka.kind, kb.kind, pn)
+			}
+			if r2 != rf || s2 != sf {
+				c.Failf("new-generation-differs-from-fresh:filter-kind-change:to-"+kb.kind, "filter f changes kind %s -> %s: the updated pipeline answers result %q status %d, a fresh pipeline with the new spec answers %q status %d", ka.kind, kb.kind, r2, s2, rf, sf)
+			}
+			c.Outcome(ka.kind + "->" + kb.kind)
+		}
+		jobs = append(jobs, mc.ExploreJob(mc.Options{Job: "filter-kind-change", MaxDev: -1}, kindChange))
+
 		// (b) BFS over TrafficController operations
 		depth := 4
 		if env.Thorough() {
